@@ -92,4 +92,21 @@ def generate(rng, tier):
                 ms = rng.choice([0, 1, 1000, 59999, 60000, 60001, 120001, 3600000, rng.randint(0, 300000)])
                 calls.append("A" + vec(c[0], c[1], c[2], rng.uniform(-720, 720)) + f",{ms}")
         out.append((f"bld I{scale},{rng.choice([0, 1])} " + " ".join(calls), True))
+    # short histories whose total is not a round number: the finished trajectory lasts exactly the sum of the durations asked
+    # for, to the millisecond (totals that do not survive a detour through binary32 seconds, and totals beyond 2^24 ms)
+    odd = [251, 253, 502, 506, 1004, 2001, 4002, 8011, 16300, 32011, 64019, 100003, 119999]
+    hist = [[("A", m)] for m in odd] + [[("A", 1500), ("H", 2502), ("A", 4009)], [("H", 10800000), ("A", 7200001)],
+                                         [("A", 16777217)], [("H", 16777216), ("A", 1)], [("A", 59999), ("A", 60001), ("H", 3)]]
+    for _ in range(1500 if thorough else 300):
+        hist.append([(rng.choice("AAH"), rng.randint(1, 120000)) for _ in range(rng.choice([1, 1, 2, 3]))])
+    for h in hist:
+        scale = rng.choice([1, 2, 10])
+        calls = ["S" + vec(10.0 * scale, -20.0 * scale, 5.0 * scale, 30.0)]
+        for i, (k, m) in enumerate(h):
+            if k == "H":
+                calls.append(f"H{m}")
+            else:
+                calls.append("A" + vec(float((i + 2) * 100 * scale), float(-50 * scale * i), float(40 * scale), 30.0 + 10 * i) + f",{m}")
+        calls.append("F")
+        out.append((f"bld I{scale},1 " + " ".join(calls), True))
     return out
